@@ -77,7 +77,7 @@ type failure struct {
 
 // classify names well-understood failure signatures so that violation keys are stable across seeds.
 func classify(m *caseMeta, lines []string) string {
-	joined := strings.Join(lines, "\n")
+	joined := strings.ReplaceAll(strings.Join(lines, "\n"), "\\x20", " ")
 	if m != nil && strings.Contains(m.Lit, "__proto__") {
 		return "proto-key"
 	}
@@ -270,6 +270,7 @@ func Run(c *core.Ctx) int {
 	typeClass := map[string]bool{}
 	triples := map[string]bool{}
 	guardObs := map[string]string{}
+	observations := map[string]string{}
 	classCount := map[string]int{}
 	var failures []string
 	programsOK := 0
@@ -353,6 +354,12 @@ func Run(c *core.Ctx) int {
 			case strings.HasPrefix(l, "F "), strings.HasPrefix(l, "X "):
 				id := strings.Fields(l[2:] + " ")[0]
 				bad[caseOf(id)] = append(bad[caseOf(id)], l)
+			case strings.HasPrefix(l, "O "):
+				if fs := strings.SplitN(l[2:], " ", 2); len(fs) == 2 {
+					mu.Lock()
+					observations[fs[0]] = clip(strings.ReplaceAll(fs[1], "\\x20", " "), 160)
+					mu.Unlock()
+				}
 			default:
 				trace = append(trace, l)
 			}
@@ -522,7 +529,7 @@ func Run(c *core.Ctx) int {
 					triples["js:"+m.Kind+"|"+m.Lit] = true
 				}
 				typeClass[m.Type+" -> "+m.Class] = true
-				if valueCases%(211+97*len(j.name)) == 1 {
+				if id == j.gen.ids[(7*len(j.name))%len(j.gen.ids)] {
 					c.Sample(map[string]any{"program": j.name, "case": id, "dir": m.Dir, "type": m.Type, "class": m.Class, "value": m.Lit})
 				}
 			}
@@ -591,17 +598,18 @@ func Run(c *core.Ctx) int {
 		pairs = append(pairs[:120], fmt.Sprintf("… %d more", len(pairs)-120))
 	}
 	extra := map[string]any{
-		"cases_by_direction_kind":       byKind,
-		"cases_by_direction_kind_path":  byDirKindPath,
-		"go_checks_by_kind_accessor":    byAccessor,
-		"distinct_type_class_pairs":     len(typeClass),
-		"type_class_pairs":              pairs,
-		"callback_guard_observations":   guardObs,
-		"failure_classes":               classCount,
-		"failing_case_keys":             failures,
-		"bulk_value_cases":              bulkCases,
-		"unobserved":                    []string{"time.Time <-> Date (package time does not build under GopherJS in this sandbox)", "DOM Node (no DOM under node)", "MakeFullWrapper", "js.Module", "browsers / engines other than node v20"},
-		"doc_silent_observed_not_asserted": []string{"typed read-back of null as map / *struct / func", "Interface() of undefined", "ill-formed UTF-16 -> Go string", "invalid UTF-8 -> JS string", "integers beyond 2^53", "cyclic arrays", "[]uintptr class", "non-string map keys", "complex numbers"},
+		"cases_by_direction_kind":          byKind,
+		"cases_by_direction_kind_path":     byDirKindPath,
+		"go_checks_by_kind_accessor":       byAccessor,
+		"distinct_type_class_pairs":        len(typeClass),
+		"type_class_pairs":                 pairs,
+		"callback_guard_observations":      guardObs,
+		"failure_classes":                  classCount,
+		"failing_case_keys":                failures,
+		"bulk_value_cases":                 bulkCases,
+		"unobserved":                       []string{"time.Time <-> Date (package time does not build under GopherJS in this sandbox)", "DOM Node (no DOM under node)", "js.Module", "browsers / engines other than node v20"},
+		"doc_silent_observed_not_asserted": observations,
+		"doc_silent_determinism_only":      []string{"ill-formed UTF-16 -> Go string", "invalid UTF-8 -> JS string", "integers beyond 2^53"},
 	}
 	return c.Finish("exploration", valueCases+bulkCases, len(triples), c.N(250, 600),
 		"self-checking GopherJS programs + JS-side probe (node --require): every value case is one (Go type, value, send path, receive path) or one JavaScript-made value; for each the probe's descriptor of what arrived in JavaScript must equal the descriptor derived from the table in js/js.go, Interface()/accessor/typed read-backs must equal the documented conversion bit-exactly, non-representable values must not crash and must convert deterministically. distinct_nontrivial = distinct (Go type, expected JS class, send path) triples + distinct JS-made values + hand-written scenario programs that held. Bulk PRNG iterations (strings, float64 bit patterns, integers, typed arrays) are compared on both sides in-program.",
